@@ -7,7 +7,7 @@
 #include <string.h>
 #include <stdio.h>
 
-typedef struct { char *desc, *text; int run, binary_only; char fbits[24], dbits[24], ldbits[24], api[16]; } rcase;
+typedef struct { char *desc, *text; int run, binary_only; char fbits[24], dbits[24], ldbits[24], ibits[24], api[16]; } rcase;
 static rcase *CS; static size_t n_cs; static int binary_mode;
 
 static void parse_kv (rcase *c, char *hdr) {
@@ -19,6 +19,7 @@ static void parse_kv (rcase *c, char *hdr) {
     if (!strncmp (kv, "run=", 4)) c->run = atoi (kv + 4);
     else if (!strncmp (kv, "binary_only=", 12)) c->binary_only = atoi (kv + 12);
     else if (!strncmp (kv, "api=", 4)) snprintf (c->api, sizeof c->api, "%s", kv + 4);
+    else if (!strncmp (kv, "ibits=", 6)) snprintf (c->ibits, sizeof c->ibits, "%s", kv + 6);
     else if (!strncmp (kv, "fbits=", 6)) snprintf (c->fbits, sizeof c->fbits, "%s", kv + 6);
     else if (!strncmp (kv, "dbits=", 6)) snprintf (c->dbits, sizeof c->dbits, "%s", kv + 6);
     else if (!strncmp (kv, "ldbits=", 7)) snprintf (c->ldbits, sizeof c->ldbits, "%s", kv + 7);
@@ -61,6 +62,23 @@ static void hex2bytes (const char *h, uint8_t *out, int n) { memset (out, 0, n);
 static void patch_specials (mh_ctx *mc, const rcase *c) {
   float fv; double dv; long double lv = 0; uint8_t b[16];
   hex2bytes (c->fbits, b, 4); memcpy (&fv, b, 4); hex2bytes (c->dbits, b, 8); memcpy (&dv, b, 8); hex2bytes (c->ldbits, b, 10); memcpy (&lv, b, 10);
+  if (c->ibits[0]) { /* integer marker 1234567 -> the case's 64-bit pattern, in immediates, displacements and 8-byte data */
+    int64_t iv; hex2bytes (c->ibits, b, 8); memcpy (&iv, b, 8);
+    for (MIR_module_t m = DLIST_HEAD (MIR_module_t, *MIR_get_module_list (mc->ctx)); m; m = DLIST_NEXT (MIR_module_t, m))
+      for (MIR_item_t it = DLIST_HEAD (MIR_item_t, m->items); it; it = DLIST_NEXT (MIR_item_t, it)) {
+        if (it->item_type == MIR_func_item) {
+          for (MIR_insn_t in = DLIST_HEAD (MIR_insn_t, it->u.func->insns); in; in = DLIST_NEXT (MIR_insn_t, in))
+            for (unsigned k = 0; k < in->nops; k++) {
+              if ((in->ops[k].mode == MIR_OP_INT || in->ops[k].mode == MIR_OP_UINT) && in->ops[k].u.i == 1234567) in->ops[k].u.i = iv;
+              else if (in->ops[k].mode == MIR_OP_MEM && in->ops[k].u.mem.disp == 1234567) in->ops[k].u.mem.disp = iv;
+            }
+        } else if (it->item_type == MIR_data_item) {
+          MIR_data_t d = it->u.data; int64_t e0;
+          if ((d->el_type == MIR_T_I64 || d->el_type == MIR_T_U64 || d->el_type == MIR_T_P) && (memcpy (&e0, d->u.els, 8), e0 == 1234567)) memcpy (d->u.els, &iv, 8);
+        }
+      }
+    return;
+  }
   for (MIR_module_t m = DLIST_HEAD (MIR_module_t, *MIR_get_module_list (mc->ctx)); m; m = DLIST_NEXT (MIR_module_t, m))
     for (MIR_item_t it = DLIST_HEAD (MIR_item_t, m->items); it; it = DLIST_NEXT (MIR_item_t, it)) {
       if (it->item_type == MIR_func_item) {
@@ -215,7 +233,7 @@ void drv_case (uint64_t idx) {
   mh_open (&a);
   if (c->api[0]) { mh_cur = &a; mh_arm (1); if (setjmp (mh_err_jb) == 0) { build_api_case (&a, c); mh_arm (0); } else { mh_arm (0); vp_fail ("harness-invalid-case", "API construction failed: %s", a.errmsg); mh_close (&a); return; } }
   else if (mh_scan (&a, c->text) != 0) { vp_fail ("harness-invalid-case", "the case text is rejected by MIR_scan_string: %s", a.errmsg); mh_close (&a); return; }
-  if (c->fbits[0]) patch_specials (&a, c);
+  if (c->fbits[0] || c->ibits[0]) patch_specials (&a, c);
   mh_open (&b);
   if (!binary_mode) {
     t1 = output_text (&a, &l1);
